@@ -173,11 +173,11 @@ where
                 );
 
                 // Try with past exporter secrets
-                self.try_decrypt_with_past_epochs(
-                    mls_group,
-                    encrypted_content,
-                    DEFAULT_EPOCH_LOOKBACK,
-                )
+                // Look back as far as the MLS layer is configured to keep past epochs
+                // (never less than the default), so that a window configured above the
+                // default is not cut short by the outer layer.
+                let lookback = DEFAULT_EPOCH_LOOKBACK.max(self.config.max_past_epochs as u64);
+                self.try_decrypt_with_past_epochs(mls_group, encrypted_content, lookback)
             }
         }
     }
